@@ -162,7 +162,11 @@ func parallelLeg(ctx *kernel.BatchContext) []kernel.Violation {
 	}
 	raceBin := filepath.Join(ctx.BuildDir, fmt.Sprintf("verifsim-race.%d", os.Getpid()))
 	defer os.Remove(raceBin)
-	build := exec.Command("go", "build", "-race", "-o", raceBin, "./cmd/verifsim")
+	bargs := []string{"build", "-race"}
+	if mf := os.Getenv("VERIF_MODFILE"); mf != "" {
+		bargs = append(bargs, "-modfile="+mf)
+	}
+	build := exec.Command("go", append(bargs, "-o", raceBin, "./cmd/verifsim")...)
 	build.Dir = filepath.Join(ctx.VerifDir, "sim")
 	if out, err := build.CombinedOutput(); err != nil {
 		ctx.Infra = append(ctx.Infra, "parallel leg: cannot build the -race binary: "+err.Error()+"\n"+tailStr(string(out), 2000))
